@@ -70,6 +70,10 @@ func (tps *TPS) SetShareData(shareData []byte) error {
 		return err
 	}
 
+	if len(tps.sk.ys) != tps.MessageLength+1 {
+		return fmt.Errorf("secret key share has %d components but %d were expected", len(tps.sk.ys), tps.MessageLength+1)
+	}
+
 	if len(tps.storedData.PublicKeys) < len(tps.parties) {
 		return fmt.Errorf("share data holds %d public keys but there are %d parties", len(tps.storedData.PublicKeys), len(tps.parties))
 	}
